@@ -11,16 +11,21 @@ From TV.Uring Require Import Gen Model.
 Open Scope N_scope.
 
 Record cfile := { cur : list N; dur : list N }.
-Record cfs := { cfiles : list cfile; cfds : list (N * N) }.    (* fd -> file index *)
+Record cfs := { cfiles : list cfile; cfds : list (N * (N * N)) }.    (* fd -> (file index, access: bit 0 read, bit 1 write) *)
 
-Fixpoint fd_file (fd : N) (t : list (N * N)) : option N :=
+Fixpoint fd_entry (fd : N) (t : list (N * (N * N))) : option (N * N) :=
   match t with
   | [] => None
-  | (k, f) :: r => if k =? fd then Some f else fd_file fd r
+  | (k, fm) :: r => if k =? fd then Some fm else fd_entry fd r
   end.
+Definition fd_file (fd : N) (t : list (N * (N * N))) : option N :=
+  match fd_entry fd t with Some (f, _) => Some f | None => None end.
 
-Definition c_open_p (s : cfs) (fd : N) : bool :=
-  match fd_file fd (cfds s) with Some _ => true | None => false end.
+Definition c_ok (s : cfs) (fd : N) (u : use) : bool :=
+  match fd_entry fd (cfds s) with
+  | Some (_, m) => match u with URead => N.testbit m 0 | UWrite => N.testbit m 1 | USync => true end
+  | None => false
+  end.
 
 Definition get_file (s : cfs) (f : N) : cfile :=
   nth (N.to_nat f) (cfiles s) {| cur := []; dur := [] |}.
@@ -69,21 +74,24 @@ Definition c_fsync (s : cfs) (fd : N) : cfs * Z :=
   end.
 
 Definition CFS : fsapi :=
-  {| FS := cfs; fs_open := c_open_p; fs_read := c_read; fs_write := c_write; fs_fsync := c_fsync |}.
+  {| FS := cfs; fs_ok := c_ok; fs_read := c_read; fs_write := c_write; fs_fsync := c_fsync |}.
 
 (* ---- external activity rendered by the generator as HFs events ---- *)
-Definition x_open (fd f : N) (s : cfs) : cfs * (Z * list N) :=
-  ({| cfiles := cfiles s; cfds := (fd, f) :: cfds s |}, (0%Z, [])).
+Definition x_open (fd f mode : N) (s : cfs) : cfs * (Z * list N) :=
+  ({| cfiles := cfiles s; cfds := (fd, (f, mode)) :: cfds s |}, (0%Z, [])).
 Definition x_close (fd : N) (s : cfs) : cfs * (Z * list N) :=
   ({| cfiles := cfiles s; cfds := filter (fun kf => negb (fst kf =? fd)) (cfds s) |}, (0%Z, [])).
 (* Fs::crash + every File dropped *)
 Definition x_crash (s : cfs) : cfs * (Z * list N) :=
   ({| cfiles := map (fun c => {| cur := dur c; dur := dur c |}) (cfiles s); cfds := [] |}, (0%Z, [])).
-(* FileExt::read_at / write_at / File::sync_all on an open descriptor *)
+(* FileExt::read_at / write_at / File::sync_all on an open descriptor; the shim
+   refuses a use the descriptor was not opened for with PermissionDenied
+   (rendered as -13) *)
+Definition EACCES_shim : Z := (-13)%Z.
 Definition x_read (fd off len : N) (s : cfs) : cfs * (Z * list N) :=
-  let '(s', z, d) := c_read s fd off len in (s', (z, d)).
+  if c_ok s fd URead then let '(s', z, d) := c_read s fd off len in (s', (z, d)) else (s, (EACCES_shim, [])).
 Definition x_write (fd off : N) (d : list N) (s : cfs) : cfs * (Z * list N) :=
-  let '(s', z) := c_write s fd off d in (s', (z, [])).
+  if c_ok s fd UWrite then let '(s', z) := c_write s fd off d in (s', (z, [])) else (s, (EACCES_shim, [])).
 Definition x_fsync (fd : N) (s : cfs) : cfs * (Z * list N) :=
   let '(s', z) := c_fsync s fd in (s', (z, [])).
 (* whole contents of a file by path *)
